@@ -1580,6 +1580,16 @@ func (self *Node) skipAllKey() error {
 	return nil
 }
 
+// settle finishes a partially parsed node before it is copied by value:
+// a copy shares the parser state, and reading the copy would advance it behind the original's back
+func (self *Node) settle() {
+	if self.t == _V_ARRAY_LAZY {
+		_ = self.skipAllIndex()
+	} else if self.t == _V_OBJECT_LAZY {
+		_ = self.skipAllKey()
+	}
+}
+
 func (self *Node) skipKey(key string) (*Node, int) {
 	nb := self.len()
 	lazy := self.isLazy()
@@ -1779,6 +1789,9 @@ func (self *Node) toGenericArrayUseNode() ([]Node, error) {
 	}
 
 	var s = (*linkedNodes)(self.p)
+	for i := 0; i < s.Len(); i++ {
+		s.At(i).settle()
+	}
 	if s.Len() != nb {
 		// some nodes got unset, iterate to skip them
 		var out = make([]Node, 0, nb)
